@@ -112,7 +112,7 @@ Qed.
 
 Definition is_thread_label (l : label) : bool :=
   match l with LEnter _ | LExit _ | LFinish _ => true | _ => false end.
-Definition is_submit (l : label) : bool := match l with LSubmit _ _ => true | _ => false end.
+Definition is_submit (l : label) : bool := match l with LSubmit _ _ | LSubmitStale _ _ => true | _ => false end.
 
 Lemma finish_work_lt : forall s t h c s' ev,
   Inv s -> tget t (s_thr s) = Some h -> th_client h = Some c -> th_queue h = [] -> th_running h = false ->
@@ -144,7 +144,7 @@ Theorem pool_work_step : forall n ls s tr, run (init n) ls = Some (s, tr) -> for
   (is_submit l = true -> pool_work s' <= pool_work s + 4).
 Proof.
   intros n ls s tr H l s' ev Hst. apply run_reach in H. pose proof (reach_inv _ _ _ H) as HI. destruct HI as [I [U W]].
-  destruct l as [c|c m|t|t|t|c|c|c| | | | ]; cbn [step is_thread_label is_submit] in *;
+  destruct l as [c|c m|t|t|t|c|c|c| | | | |c m]; cbn [step is_thread_label is_submit] in *;
     (split; [try discriminate|split; try discriminate]); intros _.
   - destruct (in_unreg s c); [discriminate|]. destruct (lmem c (s_cl s)); injection Hst as <- <-; unfold pool_work; sst; lia.
   - destruct (in_unreg s c); [discriminate|]. destruct (lmem c (s_cl s)); [|injection Hst as <- <-; lia].
@@ -207,6 +207,22 @@ Proof.
     destruct (shut_end s) as [s1 e1] eqn:He. injection Hst as <- <-.
     destruct (shut_end_fields s) as [_ [_ [_ [_ [_ [_ [A7 [A8 [_ [A10 _]]]]]]]]]]. rewrite He in A7, A8, A10. cbn [fst] in *.
     unfold pool_work. rewrite A7, A8, A10. cbn. lia.
+  - destruct (in_unreg s c); [discriminate|]. destruct (lmem c (s_cl s)); [discriminate|]. destruct (s_sd s); try discriminate.
+    destruct (pool_send s c m) as [s1 r] eqn:Hs. injection Hst as <- <-. unfold pool_send in Hs.
+    destruct (tget c (s_reg s)) as [[|]|] eqn:Hr.
+    + injection Hs as <- <-. unfold pool_work, tappend; sst. unfold qof.
+      destruct (tget c (s_defer s)) as [q|] eqn:E.
+      * pose proof (qsum_tset_some c q (q ++ [m]) _ E) as Q. rewrite app_length in Q. cbn [length] in Q. lia.
+      * cbn [app]. pose proof (qsum_tset_none c [m] _ E) as Q. cbn [length] in Q. lia.
+    + set (s1' := set_pend s (tappend c m (s_pend s))) in *.
+      assert (H1 : pool_work s1' <= pool_work s + 4).
+      { unfold s1', pool_work, tappend; sst. unfold qof.
+        destruct (tget c (s_pend s)) as [q|] eqn:E.
+        * pose proof (qsum_tset_some c q (q ++ [m]) _ E) as Q. rewrite app_length in Q. cbn [length] in Q. lia.
+        * cbn [app]. pose proof (qsum_tset_none c [m] _ E) as Q. cbn [length] in Q. lia. }
+      destruct (_ =? 1); injection Hs as <- <-; auto.
+      pose proof (dispatch_work_le s1' (send_pend_inv s c m I Hr)). lia.
+    + injection Hs as <- <-. lia.
 Qed.
 
 (* while anything of a client is outstanding (and Shutdown() has not begun) the measure is positive *)
